@@ -20,6 +20,8 @@ def run(ctx):
     # beside the main fan: a table whose middle value has more than 2^31 bytes (snappy; thorough: none and zlib too), -O2 build
     ctx.fan_parallel([((exes["h_table"], "c01", 40000 if th else 3000, ["--aux", exes["mtbl_dump"]]), dict(timeout=120, closed_stdin_every=5, max_workers=14)),
                       ((exes["h_table.plain"], "bigvalue", 3 if th else 1), dict(chunk=1, timeout=900, max_workers=1))])
+    # blocks (data and index) whose entry area ends within a few bytes of the builder's buffer capacity: 64 + 40 directed files under ASan
+    ctx.fan(exes["h_table"], "edge", 104, timeout=120)
     s = ctx.stats
     ctx.assumptions += ["oracle = the generated strictly increasing sequence itself (sorted with the harness's own comparator)",
                         "block_restart_interval 0 and keys/values >= 4 GiB are outside the quantifier and not generated; values above 2 GiB only in the three-entry bigvalue tables"]
@@ -29,6 +31,6 @@ def run(ctx):
              "non-trivial = every generated case; distinct = distinct (content, configuration) hashes",
         evaluations=s.get("c01.files", 0),
         floors={"c01.files": 2500, "c01.entries_compared": 50000, "gen.key_ge_128": 50, "gen.value_ge_16k": 5, "gen.empty_key": 20,
-                "gen.shared_prefix_ge_128": 50, "c01.files_pooled": 100, "dump.entries_compared": 1000, "dump.invocations.plain": 50, "bigvalue.snappy": 1,
+                "gen.shared_prefix_ge_128": 50, "c01.files_pooled": 100, "dump.entries_compared": 1000, "dump.invocations.plain": 50, "bigvalue.snappy": 1, "edge.data_block_cases": 64, "edge.index_block_cases": 36, "gen.models_with_separator_pairs": 200,
                 **({"bigvalue.none": 1, "bigvalue.zlib": 1} if th else {})},
         extra={"dump_invocations": sum(v for k, v in s.items() if k.startswith("dump.invocations."))})
